@@ -455,3 +455,28 @@ package goat
 //@   requires ctx != nil && rw != nil
 //@   ensures[C10.streams_drained_before_return] ncalls("call:goat.(*handler).cancelAndWaitForStreams") == old(ncalls("call:goat.(*handler).cancelAndWaitForStreams")) + 1
 //@   ensures[C10.serve_once] ncalls("call:goat.(*handler).serve") == old(ncalls("call:goat.(*handler).serve")) + 1
+
+// ---------------------------------------------------------------------------------
+// lemmas over the contracts (each is one solver query; hypotheses and goal are spec expressions)
+
+// what headersFromContext emits for ms milliseconds is read back by parseGrpcTimeout's contract as
+// exactly ms milliseconds (the encoder's value is in the decoder's DU domain; up to 99999999 ms it
+// is in the gRPC grammar G proper)
+//@ lemma[C08.encode_then_decode] timeout_roundtrip_domain : ms Int
+//@   requires ms >= 1 && ms <= 9223372036854
+//@   ensures DU(itoa(ms) + "m")
+//@ lemma[C08.encode_then_decode] timeout_roundtrip_value : ms Int
+//@   requires ms >= 1 && ms <= 9223372036854
+//@   step prefixOf(itoa(ms) + "m") == itoa(ms) && lastChar(itoa(ms) + "m") == "m"
+//@   step atoiNat(itoa(ms)) == ms
+//@   ensures timeoutNs(itoa(ms) + "m") == ms * 1000000
+//@ lemma[C08.encode_in_grammar] timeout_in_grammar : ms Int
+//@   requires ms >= 1 && ms <= 99999999
+//@   ensures G(itoa(ms) + "m")
+
+// deadline window: client remaining time rem (ns) is sent as ms = max(1, rem/1ms); the handler's
+// timeout is ms*1ms: never longer than the caller's remaining time, and shorter by less than 1ms
+// (or exactly 1ms when the caller's deadline is closer than that)
+//@ lemma[C08.deadline_window] deadline_window : rem Int, ms Int
+//@   requires (rem >= 1000000 ==> ms == rem / 1000000) && (rem < 1000000 ==> ms == 1)
+//@   ensures (rem >= 1000000 ==> ms * 1000000 <= rem && rem - ms * 1000000 < 1000000) && (rem < 1000000 ==> ms * 1000000 == 1000000)
